@@ -205,6 +205,8 @@ let handle (l : string) =
       | "retopo", [] -> let t = take_topo () in do_op "restrict" true (ORetopo t)
       | "dupsw", [] -> let _ = take_topo () in do_op "dup" true ODup
       | "xmlsw", [] -> let t = take_topo () in do_op "xml" true (if !nomem then OXmlNoMem t else OXml t)
+      | "xmlnfsw", [] -> let t = take_topo () in
+        if !nomem then begin do_op "xmlnf" true (OXmlFromNoMem t); nomem := false end else do_op "xmlnf" true (OXml t)
       | "xmltsw", [] -> let t = take_topo () in do_op "xmlt" true (if !nomem then OXmlNoMem t else OXml t)
       | _ -> Printf.printf "R %s rc=-1 err=BADCASE\n" op
     with Badcase | Failure _ -> Printf.printf "R %s rc=-1 err=BADCASE\n" op)
